@@ -20,7 +20,8 @@ import time
 from bounded_standin import spec_decode, SpecDecodeError
 from witness import leb_ref, sleb_ref
 
-OPC = {"null": -1, "bool": -2, "nat": -3, "int": -4, "nat8": -5, "nat16": -6, "nat32": -7, "nat64": -8, "int8": -9, "int16": -10,
+NAME_POOL = ["a", "b", "id", "name", "a,b", "_", "x y", "h\u00e9", "\"", "unit", "0", "ok", "err", "_a_"]
+OPC = {"principal": -24, "null": -1, "bool": -2, "nat": -3, "int": -4, "nat8": -5, "nat16": -6, "nat32": -7, "nat64": -8, "int8": -9, "int16": -10,
        "int32": -11, "int64": -12, "text": -15, "reserved": -16, "empty": -17}
 FIXED = {"nat8": (1, False), "nat16": (2, False), "nat32": (4, False), "nat64": (8, False), "int8": (1, True), "int16": (2, True),
          "int32": (4, True), "int64": (8, True)}
@@ -51,23 +52,31 @@ def idl_hash(name):
     return h
 
 
+ID_POOL = sorted(set(list(range(6)) + [idl_hash(n) for n in NAME_POOL]))
+POOL_NAME = {idl_hash(n): n for n in NAME_POOL}
+
+
 # ------------------------------------------------------------------ generation
 def gen_type(rnd, depth):
     r = rnd.random()
     if depth <= 0 or r < 0.45:
-        return rnd.choice(["nat", "int", "bool", "text", "null", "nat8", "int16", "nat32", "int64", "reserved", "nat", "text"])
+        return rnd.choice(["nat", "int", "bool", "text", "null", "nat8", "int16", "nat32", "int64", "reserved", "nat", "text", "principal"])
+    if r < 0.50:
+        return ("vec", "nat8")                                        # blobs take their own path in the decoder
     if r < 0.60:
         return ("opt", gen_type(rnd, depth - 1))
     if r < 0.72:
         return ("vec", gen_type(rnd, depth - 1))
     if r < 0.90:
-        ids = sorted(rnd.sample(range(6), rnd.randrange(0, 4)))
+        ids = sorted(rnd.sample(ID_POOL, rnd.randrange(0, 4)))
         return ("record", [(i, gen_type(rnd, depth - 1)) for i in ids])
-    ids = sorted(rnd.sample(range(6), rnd.randrange(1, 4)))
+    ids = sorted(rnd.sample(ID_POOL, rnd.randrange(1, 4)))
     return ("variant", [(i, gen_type(rnd, depth - 1)) for i in ids])
 
 
 def gen_value(rnd, t):
+    if t == "principal":
+        return ("principal", bytes(rnd.getrandbits(8) for _ in range(rnd.choice([0, 1, 10, 29]))))
     if isinstance(t, str):
         if t in ("null", "reserved"):
             return None
@@ -204,6 +213,8 @@ class Enc:
             if t == "text":
                 u = v.encode()
                 return leb_ref(len(u)) + u
+            if t == "principal":
+                return b"\x01" + leb_ref(len(v[1])) + v[1]
             n, signed = FIXED[t]
             return (v & ((1 << (8 * n)) - 1)).to_bytes(n, "little")
         if t[0] == "opt":
@@ -370,7 +381,12 @@ def run(pid, build_replay):
         msg = Enc().message(tys, vals)
         ENVS["w"], ENVS["e"] = {}, {}
         want = coerce_args(vals, tys, exps)
+        NAMES.clear()
+        for fid, nm in POOL_NAME.items():          # the expected types spell some labels by name: same id, same result
+            if rnd.random() < 0.5:
+                NAMES[fid] = nm
         cases.append((f"co {msg.hex()} {','.join(show(e) for e in exps) or '-'}", tys, vals, exps, want, {}, {}))
+        NAMES.clear()
     # (mutually) recursive types: lists and trees decoded at edited recursive expected types
     for _ in range(600 * (10 if scale > 1 else 1)):
         eenv = rnd.choice(EXP_DEFS)
